@@ -39,22 +39,25 @@ def to_matrix_indexing(axis: Union[str, int], indexing: str) -> str:
         str: converted axis in matrix indexing sense.
 
     """
-    assert indexing in "xy", "xyz"
+    assert indexing in ["x", "xy", "xyz"]
 
     # Convert numeric axis description
     if isinstance(axis, int):
         axis = "xyz"[axis]
 
-    if indexing == "xy":
+    if indexing == "x":
+        if axis == "x":
+            return "i"
+    elif indexing == "xy":
         if axis == "x":
             return "j"
         elif axis == "y":
             return "i"
     elif indexing == "xyz":
         if axis == "x":
-            return "k"
-        elif axis == "y":
             return "j"
+        elif axis == "y":
+            return "k"
         elif axis == "z":
             return "i"
 
@@ -75,7 +78,10 @@ def to_cartesian_indexing(axis: Union[str, int], indexing: str) -> str:
     if isinstance(axis, int):
         axis = "ijk"[axis]
 
-    if indexing == "ij":
+    if indexing == "i":
+        if axis == "i":
+            return "x"
+    elif indexing == "ij":
         if axis == "i":
             return "y"
         elif axis == "j":
@@ -84,9 +90,9 @@ def to_cartesian_indexing(axis: Union[str, int], indexing: str) -> str:
         if axis == "i":
             return "z"
         elif axis == "j":
-            return "y"
-        elif axis == "k":
             return "x"
+        elif axis == "k":
+            return "y"
 
     raise ValueError
 
